@@ -34,3 +34,40 @@ def sigma(exclude=""):
     """alphabets without the given raw characters (tokens that are exactly one of them)"""
     ex = set(exclude)
     return [t for t in SIGMA if t not in ex], [t for t in SIGMA_CORE if t not in ex]
+
+
+# ---- frozen spec: what normalize_url documents as irrelevant query items (data copied from the
+# documentation / vocabulary at the pinned commit; a change of ural's own patterns must not move the oracle)
+import re as _re
+
+IRRELEVANT_QUERY_SPEC = _re.compile(
+    r"^(?:__twitter_impression|_guc_consent_skip|guccounter|fb_action_types|(?:php|asp|j)?sessionid|fb_action_ids|fb_source|echobox|"
+    r"feature|recruiter|_unique_id|twclid|mibextid|campaignid|adgroupid|cn-reloaded|ao_noptimize|mkt_tok|fbclid|igshid|refid|gclid|"
+    r"mc_cid|mc_eid|__tn__|_ft_|dclid|wpamp|fref|usqp|ncid|mtm_.+|utm_.+|s?een|cftoken|cfid|sid|xt(?:loc|ref|cr|np|or|s)|at_.+|_ga)$",
+    _re.I,
+)
+IRRELEVANT_AMP_QUERY_SPEC = _re.compile(r"^(?:amp_.+|amp)$", _re.I)
+IRRELEVANT_COMBOS_SPEC = {
+    "marfeeltn": {"amp"}, "mode": {"amp"}, "output": {"amp"}, "platform": {"hootsuite"}, "fromref": {"twitter"}, "m": {"0", "1"},
+    "ref": {"bookmark", "bookmarks", "distributor_share", "fb", "fb_i", "m_notif", "nf", "notif", "shortener", "ts", "tw", "tw_i", "twhr",
+            "twhs", "twitter", "viral", "feed", "twtrec"},
+    "source": {"twitter"}, "sns": {"tw"}, "spref": {"fb", "ts", "tw", "tw_i", "twitter"}, "_ss": {"r"},
+}
+AMP_COMBOS_SPEC = {"outputtype": {"amp"}}
+IRRELEVANT_LABELS_SPEC = _re.compile(r"^(?:www\d?|mobile|m)$", _re.I)
+
+
+def irrelevant_item(key, value, normalize_amp=True):
+    """key / value are decoded text (value None for a bare key)"""
+    k = key.lower()
+    if IRRELEVANT_QUERY_SPEC.match(k):
+        return True
+    if normalize_amp and IRRELEVANT_AMP_QUERY_SPEC.match(k):
+        return True
+    if k in IRRELEVANT_COMBOS_SPEC:
+        return value in IRRELEVANT_COMBOS_SPEC[k]
+    if k == "s":
+        return bool(value) and len(value) <= 2 and value.isascii() and value.isdigit()
+    if normalize_amp and k in AMP_COMBOS_SPEC:
+        return value in AMP_COMBOS_SPEC[k]
+    return False
